@@ -176,7 +176,9 @@ static void sweep_child(const void *job, size_t n) {
 	}
 out:
 	hx_emit_ledger_violations("C09");
-	res_printf("O %lx %lx\nC commands %ld\nC commands_accepted_by_reference %ld\n", (unsigned long) ncmds + p[0] * 1000ul, (unsigned long) naccepted + p[1] * 1000ul, ncmds, naccepted);
+	{ hx_hash_t h; hx_hash_init(&h); static char fin[1 << 15]; sd_dump(fin, sizeof fin); hx_hash_str(&h, fin);       /* outcome = everything sent + final tracked state */
+	  for (int i = 0; i < SB.nlog; i++) { hx_hash_add(&h, SB.log[i].addr, 4); hx_hash_add(&h, &SB.log[i].type, 1); hx_hash_add(&h, SB.log[i].data, (size_t) SB.log[i].dlen); }
+	  res_printf("O %llx %llx\nC commands %ld\nC commands_accepted_by_reference %ld\n", (unsigned long long) h.a + p[0] * 1000ull, (unsigned long long) h.b + p[1] * 1000ull, ncmds, naccepted); }
 	res_finish();
 }
 static size_t sweep_gen(long idx, uint8_t *payload, char *human, size_t hn) {
@@ -201,7 +203,9 @@ static void groups_child(const void *job, size_t n) {
 	for (int qi = t->nper - 1; qi >= 0 && res_nviol() <= 3; qi--) cmd_function("train3", t->per[qi].id, 0, to);
 out:
 	hx_emit_ledger_violations("C09");
-	res_printf("O %lx %lx\nC commands %ld\nC commands_accepted_by_reference %ld\n", (unsigned long) ncmds + p[0] * 1000ul, (unsigned long) naccepted + p[1] * 1000ul, ncmds, naccepted);
+	{ hx_hash_t h; hx_hash_init(&h); static char fin[1 << 15]; sd_dump(fin, sizeof fin); hx_hash_str(&h, fin);       /* outcome = everything sent + final tracked state */
+	  for (int i = 0; i < SB.nlog; i++) { hx_hash_add(&h, SB.log[i].addr, 4); hx_hash_add(&h, &SB.log[i].type, 1); hx_hash_add(&h, SB.log[i].data, (size_t) SB.log[i].dlen); }
+	  res_printf("O %llx %llx\nC commands %ld\nC commands_accepted_by_reference %ld\n", (unsigned long long) h.a + p[0] * 1000ull, (unsigned long long) h.b + p[1] * 1000ull, ncmds, naccepted); }
 	res_finish();
 }
 static size_t groups_gen(long idx, uint8_t *payload, char *human, size_t hn) {
